@@ -15,6 +15,7 @@ import sys
 
 sys.path.insert(0, os.path.join(os.path.dirname(os.path.abspath(__file__)), "..", "lib"))
 import vlib  # noqa
+import C20_route  # noqa  (extra part: per-object routing, FedRoute.tla)
 
 PAM = {"lib/controller/localdb/login_pam.go": "harness/stubs/login_pam_stub.go"}
 
@@ -145,11 +146,19 @@ def run(ctx):
                         "abstract<->concrete UUID table of the driver",
                         "stub's reading of the uuid filters it receives (intersection of uuid =/in operands)",
                         "pure-Go stub replacing localdb/login_pam.go (build only)"]
+    ctx.rule += ("; extra part: the per-object routing table FedRoute.tla (method x prefix class x configured "
+                 "remotes x login cluster), every row run against the real Conn")
     ctx.assumptions = ["backends ignore context cancellation (a cancelled call is just another error answer)",
                        "malformed UUID = string whose length is not 27 (as the code defines it)",
                        "answers outside the statement's classes (repeated/unrequested items next to progress, empty "
                        "answer although objects exist) make the contract accept any outcome"]
 
 
+def run_all(ctx):
+    run(ctx)
+    n = C20_route.run_part(ctx)
+    ctx.evaluations += n
+
+
 if __name__ == "__main__":
-    vlib.main("C20", run)
+    vlib.main("C20", run_all)
